@@ -241,7 +241,8 @@ Evmodel == /\ IsKind("evmodel")
 
 \* ---- the worker process died inside this scenario ---------------------------
 Crash == /\ IsKind("crash")
-         /\ g' = GBad({"*"}, "crash:" \o Line.cls)
+         /\ g' = IF Line.go THEN GBad({"*"}, "crash:" \o Line.cls)
+                 ELSE Infra("worker died without a Go panic, fatal error or race report (" \o Line.cls \o ")")
          /\ UNCHANGED <<W, seq>> /\ Next1
 
 \* fault injection: the next read(2) on the inotify descriptor fails once
